@@ -67,7 +67,10 @@ def recipes():
     r["key"] = {"output_format": ([], lambda f: b"", "write_bytes.output_format"), "log_level": ([], lambda f: b"", "set_log_level")}
     r["pubkey"] = {"input_format": (["-X"], data_in(KEY32), "read_bytes.input_format"), "output_format": (["-X"], data_in(KEY32), "write_bytes.output_format"),
                    "log_level": (["-X"], data_in(KEY32), "set_log_level")}
-    r["wif"] = {"input_format": ([], data_in(KEY32), "read_bytes.input_format"), "network": ([], data_in(KEY32), "wif_encode.network"),
+    def _wif_out(net):
+        from ..ref import base58 as r58_
+        return r58_.check_encode(bytes([0x80 if net == "mainnet" else 0xEF]) + KEY32)     # p2pkh type offset 0, no suffix; regtest shares testnet's byte
+    r["wif"] = {"input_format": ([], data_in(KEY32), "read_bytes.input_format"), "network": ([], data_in(KEY32), "wif_encode.network", _wif_out),
                 "log_level": ([], data_in(KEY32), "set_log_level")}
     def _segwit_out(net):
         from ..ref import bech32 as rb_
@@ -449,7 +452,8 @@ def _precedence(ctx, params, kind):
         d = tempfile.mkdtemp(prefix="c20-")
         try:
             # explicit values that are FALSY (the empty string, legal for the rpc_* options) are explicit all the same
-            for flag_val in (([None, a] + ([""] if opt.startswith("rpc_") and rot == 0 else [])) if has_flag else [None]):
+            base_flag = (not has_flag) and sub is not None and opt in table.get(None, ()) and opt in ("output_format", "input_format", "log_level", "network")
+            for flag_val in (([None, a] + ([""] if opt.startswith("rpc_") and rot == 0 else [])) if (has_flag or base_flag) else [None]):
                 for js in (None, {}, {opt: b}):
                     for ts in (None, {}, {opt: c}):
                         if kind == "unknown_keys" and js is None and ts is None:
@@ -459,7 +463,16 @@ def _precedence(ctx, params, kind):
                         exp, layer = expected_value(opt, flag_val, js, ts)
                         # effective formats to prepare stdin / other options must stay at defaults
                         in_fmt = exp if opt == "input_format" else "hex"
-                        argv = ["--config-dir", cfg] + ([sub] if sub else []) + list(extra) + (flag_args(opt, flag_val) if flag_val is not None else [])
+                        if base_flag:
+                            # the subcommand declares no flag of its own: the base command's flag (before the subcommand name) is the explicit value
+                            fa = flag_args(opt, flag_val) if flag_val is not None else []
+                            if fa in (["-0"], ["-1"]):
+                                fa = [{"-0": "--output-format=raw", "-1": "--input-format=raw"}[fa[0]]]   # a bare -0 / -1 would swallow the subcommand name (nargs='?')
+                            argv = ["--config-dir", cfg] + fa + [sub] + list(extra)
+                            if flag_val is not None:
+                                ctx.count("prec.class.base_position_flag")
+                        else:
+                            argv = ["--config-dir", cfg] + ([sub] if sub else []) + list(extra) + (flag_args(opt, flag_val) if flag_val is not None else [])
                         r = run_main(argv, stdin_maker(in_fmt))
                         ctx.count("prec.configs" if kind == "precedence" else "unknown.configs")
                         ctx.seen("prec", canon([sub, opt, flag_val, js, ts, kind]))
